@@ -220,18 +220,136 @@ def run(cfg):
             o = _atom(_P(a[2][0]))
             okp = o is not None and o[0] == 'fn' and o[1].endswith('TimeZone::getOffsetDateTime') and _atom(_P(a[2][1])) == ('sym', f.params[-1][0])
     ob('R2', f.name, f.loc, okp, 'forComponents does not return ZonedDateTime(timeZone.getOffsetDateTime(ldt), timeZone)')
-    # ---- R3 look-up shape
-    for name, key in (('findTransition', 'startEpochSeconds'), ('findTransitionForDateTime', 'startDateTime')):
-        fs = lib.fns('ace_time::extended::TransitionStorage::' + name)
-        if not fs:
-            raise AnalysisError('anchor vanished: TransitionStorage::%s' % name)
-        f = fs[0]
-        ob('R3', f.name, f.loc, *lookup_shape(f, key, fold_global=lib.global_value))
+    # ---- R3 look-ups, interpreted on abstract pools
+    for name, res in lookup_eval(R.cfg, lib).items():
+        f, bad, n = res['c']
+        R.instance('R3', f.name, f.loc, '%d interpreted look-ups' % n)
+        if bad:
+            R.violation('R3', f.name, f.loc, bad)
     return R
 
 
 CMP_CALLS = {'ace_time::extended::operator<': '<', 'ace_time::extended::operator>': '>', 'ace_time::extended::operator<=': '<=',
              'ace_time::extended::operator>=': '>=', 'ace_time::extended::operator==': '=='}
+
+
+def lookup_eval(cfg, lib):
+    """The look-ups of the transition cache are interpreted (E-SEQ: the C++ side typed, the brokers / DateTuple comparison
+    operators / LocalDateTime accessors through their bodies; the Python side over its ast) on abstract pools of 0..4
+    transitions with strictly ascending start times, with queries before, at, one unit around and between every start.
+    Expected of both: the last transition whose start <= query, none when the query lies before the first start.
+    -> {'findTransition': {'c': (function, first discrepancy or None, look-ups), 'py': (...)}, 'findTransitionForDateTime': ...}"""
+    import datetime as _dt
+    from .aeval import AEval, AObj, CxxModule, Raised, cxx_object
+    from .pyeval import PyEval, PObj, Raised as PRaised
+    from . import py as _py
+    NS = 'ace_time::extended::'
+    mod = CxxModule(lib, ['ace_time::'])
+    size = None
+    for n_, t_, _x in lib.fields(NS + 'TransitionStorage'):
+        if n_ == 'mTransitions' and '[' in (t_ or ''):
+            size = int(t_[t_.index('[') + 1:t_.index(']')])
+    if not size:
+        raise AnalysisError('TransitionStorage::mTransitions: array size not found')
+    zs = _py.load(cfg, 'tools/zonedb/zone_specifier.py')
+    pev = PyEval(cfg)
+    DT = pev.global_name(zs, 'DateTuple', zs.rel)
+    out = {}
+    # starts: day 6, 12, 18, 24 of March 2001 at 02:00; epoch seconds 1000, 2000, ...
+    days = [6, 12, 18, 24]
+    for cname, pname, kind in (('findTransition', 'ZoneSpecifier._find_transition_for_seconds', 'sec'),
+                               ('findTransitionForDateTime', 'ZoneSpecifier._find_transition_for_datetime', 'dt')):
+        fs = lib.fns(NS + 'TransitionStorage::' + cname)
+        if not fs:
+            raise AnalysisError('anchor vanished: TransitionStorage::%s' % cname)
+        cf = fs[0]
+        pf = zs.fn(pname)
+        cbad = pbad = None
+        cn = pn = 0
+        for n in range(0, 5):
+            if kind == 'sec':
+                starts = [1000 * (i + 1) for i in range(n)]
+                queries = sorted({q for s in starts for q in (s - 1, s, s + 1, s + 500)} | {0, 999999})
+            else:
+                starts = [(1, 3, days[i], 120) for i in range(n)]
+                queries = sorted({q for (y, m, d, mi) in starts for q in ((y, m, d, mi - 1), (y, m, d, mi), (y, m, d, mi + 1), (y, m, d + 5, 0), (y, m, d - 1, 1439))}
+                                 | {(0, 12, 31, 0), (1, 12, 1, 0), (1, 2, 28, 1439)})
+            for q in queries:
+                want = None
+                for i, s in enumerate(starts):
+                    if s <= q:
+                        want = i
+                # C++
+                objs = []
+                for i in range(size):
+                    o = cxx_object(lib, NS + 'Transition')
+                    if i < n:
+                        if kind == 'sec':
+                            o.attrs['startEpochSeconds'] = starts[i]
+                        else:
+                            y, m, d, mi = starts[i]
+                            o.attrs['startDateTime'].attrs.update({'yearTiny': y, 'month': m, 'day': d, 'minutes': mi, 'suffix': 0})
+                            o.attrs['transitionTime'].attrs.update({'yearTiny': 99, 'month': 1, 'day': 1, 'minutes': 0, 'suffix': 0})
+                    objs.append(o)
+                pool = AObj({'mTransitions': objs, 'mIndexPrior': n, 'mIndexCandidates': n, 'mIndexFree': n, 'mHighWater': 0, 'mPool': None},
+                            oid='pool', cls=NS + 'TransitionStorage', ftypes={'mIndexPrior': (8, False), 'mIndexCandidates': (8, False), 'mIndexFree': (8, False), 'mHighWater': (8, False)})
+                if kind == 'sec':
+                    arg = q
+                else:
+                    arg = cxx_object(lib, 'ace_time::LocalDateTime')
+                    arg.attrs['mLocalDate'].attrs.update({'mYearTiny': q[0], 'mMonth': q[1], 'mDay': q[2]})
+                    arg.attrs['mLocalTime'].attrs.update({'mHour': q[3] // 60, 'mMinute': q[3] % 60, 'mSecond': 0})
+                try:
+                    ev = AEval(module=mod, intrinsics={'ace_time::logging::printf': lambda e_, r_, a_: None}, typed=True, max_steps=20000)
+                    r = ev.call_function(cf.name, [arg], recv=pool, chosen=CxxModule._Fn(cf))
+                    got = next((i for i, o in enumerate(objs) if o is r), None) if r is not None else None
+                    if r is not None and got is None:
+                        got = 'an object outside the pool'
+                except IndexError:
+                    got = 'a read outside the pool'
+                except Raised as x_:
+                    got = 'raises %s' % x_.what
+                except AnalysisError as x_:
+                    if 'step budget' in str(x_) or 'does not terminate' in str(x_):
+                        got = 'no termination'
+                    else:
+                        raise
+                cn += 1
+                if got != want and cbad is None:
+                    cbad = 'pool with starts %s, query %s: the look-up returns %s, the last transition that starts at or before the query is %s' % (
+                        starts, q, 'nothing' if got is None else ('transition #%s' % got if isinstance(got, int) else got), 'none' if want is None else '#%d' % want)
+                # Python
+                trs = []
+                for i in range(n):
+                    if kind == 'sec':
+                        trs.append(PObj(zs, 'Transition', {'startEpochSecond': starts[i], 'startDateTime': None, 'transitionTime': None}))
+                    else:
+                        y, m, d, mi = starts[i]
+                        trs.append(PObj(zs, 'Transition', {'startDateTime': pev.apply(DT, [], dict(y=2000 + y, M=m, d=d, ss=mi * 60, f='w')),
+                                                           'transitionTime': pev.apply(DT, [], dict(y=2099, M=1, d=1, ss=0, f='w')), 'startEpochSecond': None}))
+                me = PObj(zs, 'ZoneSpecifier', {'transitions': trs, 'debug': False})
+                if kind == 'sec':
+                    parg = q
+                else:
+                    try:
+                        parg = _dt.datetime(2000 + q[0], q[1], q[2], q[3] // 60, q[3] % 60, 0)
+                    except ValueError:
+                        parg = None          # a day the calendar does not have: no Python query for it
+                if parg is not None:
+                    try:
+                        pev.steps = 0
+                        r = pev.call(zs, pname, [parg], recv=me)
+                        gotp = next((i for i, o in enumerate(trs) if o is r), None) if r is not None else None
+                        if r is not None and gotp is None:
+                            gotp = 'an object outside the list'
+                    except PRaised as x_:
+                        gotp = 'raises %s' % x_.what
+                    pn += 1
+                    if gotp != want and pbad is None:
+                        pbad = 'transitions starting at %s, query %s: the look-up returns %s, the last transition that starts at or before the query is %s' % (
+                            starts, q, 'nothing' if gotp is None else ('transition #%s' % gotp if isinstance(gotp, int) else gotp), 'none' if want is None else '#%d' % want)
+        out[cname] = {'c': (cf, cbad, cn), 'py': (pf, pbad, pn)}
+    return out
 
 
 def lookup_shape(f, key, lang='c', fold_global=None):
